@@ -109,6 +109,12 @@ pub fn auth_probe(s: &Sim) -> StateObs {
             only_admin.clone(),
         ),
         (
+            "UpdateConfig.empty",
+            ExecuteMsg::UpdateConfig { native_chain_config: None, protocol_chain_config: None, protocol_fee_config: None, monitors: None, batch_period: None },
+            vec![],
+            only_admin.clone(),
+        ),
+        (
             "UpdateConfig.monitors",
             ExecuteMsg::UpdateConfig { native_chain_config: None, protocol_chain_config: None, protocol_fee_config: None, monitors: Some(vec![p20("mon2")]), batch_period: None },
             vec![],
@@ -346,6 +352,31 @@ pub fn breaker_probe(s: &Sim, candidates: &[Act]) -> StateObs {
             o.probes += 1;
             if ap.out.ok {
                 o.violations.push(viol("C10", "resume.by_non_admin", format!("ResumeContract by {who} accepted")));
+            }
+        }
+        // "exactly the values supplied": a resume document that leaves a total out supplies nothing for it; it
+        // must not be read as zero (it has to be refused, or leave that total alone)
+        let names = ["total_native_token", "total_liquid_stake_token", "total_reward_amount"];
+        for mask in 0u8..7 {
+            let mut body = serde_json::Map::new();
+            for (i, nme) in names.iter().enumerate() {
+                if mask & (1 << i) != 0 {
+                    body.insert(nme.to_string(), serde_json::json!("777"));
+                }
+            }
+            let doc = serde_json::json!({"resume_contract": body}).to_string();
+            let mut t = s.clone();
+            let out = t.w.exec_json(&admin, &doc, &[]);
+            o.probes += 1;
+            if out.ok {
+                let q = t.w.state();
+                let now = [q.total_native_token.u128(), q.total_liquid_stake_token.u128(), q.total_reward_amount.u128()];
+                let before = [st.total_native_token.u128(), st.total_liquid_stake_token.u128(), st.total_reward_amount.u128()];
+                for i in 0..3 {
+                    if mask & (1 << i) == 0 && now[i] != before[i] {
+                        o.violations.push(viol("C10", "resume.partial_document", format!("ResumeContract document {doc} was accepted and changed {} from {} to {} although no value was supplied for it", names[i], before[i], now[i])));
+                    }
+                }
             }
         }
         let big = 1_000_000_000_000_000_000_000_000_000u128;
